@@ -375,4 +375,6 @@ def register(_reg, _mt, STD):  # noqa: ANN001
     _extend('C14', [round5.rule_non_init_factories_run])
     _extend('C16', [round5.rule_specialisations_inherit_dunders, round5.rule_eq_reads_root_origin])
     _extend('C17', [round5.rule_none_argument_is_nonetype])
+    for pid_ in ('C04', 'C13', 'C18'):
+        _extend(pid_, [round5.rule_numpy_free_twin])
     _extend('C20', [rename.rule_c20_r6, rename.rule_c20_r7, round5.rule_style_guard_agrees])
